@@ -95,6 +95,11 @@ FIXED += [
   'Pack (ignore on) and the bundle builder never returned when .terraformignore was a named pipe or a link to one'),
 ]
 
+FIXED += [
+ ("C01", "created-outside", "fix: check the cleaned entry path, not the raw name, for symlinked parent directories",
+  'with links "m -> ." and "l -> m/..", the entry "zz/../l/sib/pwn" was written into an existing directory outside dst: the parent walk stopped at the missing component "zz" of the raw name'),
+]
+
 OPEN = [
  ("C04", "dotdot-after-symlink-component",
   'a link whose target applies ".." after a component that is itself a symlink in dst (e.g. "d/l -> .." together with "m -> d/l/../secret", in either order) is accepted because targets are validated lexically; the operating system resolves m to a location outside dst. No entry can be written through such a link any more (see the fixed C01 entries), but the link itself remains'),
